@@ -252,8 +252,8 @@ def diag(sc):
 
 
 def split_known(scs, failing):
-    """Lock-step failures that are the model rejecting a KNOWN class (Stuck 9 at the Quiesce guard in a scenario in which the snapshot
-    oracle identified exactly that class) would be expected; no class is known at present, so everything stays a disagreement."""
+    """Lock-step failures that are the model rejecting the known class KF-C19-3 (Stuck 9 at the Quiesce guard in a scenario in which
+    the snapshot oracle identified exactly that class) are expected; everything else stays a disagreement."""
     rest, known = [], []
     for i in failing:
         _, k3 = snapshot_oracle(scs[i])
@@ -348,11 +348,15 @@ def objects_alive(sc):
 
 
 
+KF3 = ("KF-C19-3 evicted-from-pending-capacity-without-release: a closed unreferenced record popped from pending_capacity by "
+       "assign_connection_capacity is never removed")
+
+
 def snapshot_oracle(sc):
     """O1: after every step every record in the slab has a reason to be there (not closed, a handle, a queue, reset expiry).
     O2: Inner.refs = live Streams objects + sum of the records' ref_count.  O3: no `dangling store key` panic.
-    Returns (violation | None, known-finding text | None); no class is known at present (the eviction from pending_capacity without
-    transition_after, former KF-C19-3, was repaired by bbd3023)."""
+    Returns (violation | None, known-finding text | None).  Known class KF-C19-3: the leaked record's ONLY reason in the previous
+    snapshot was is_pending_send_capacity (Prioritize::assign_connection_capacity evicts it without transition_after)."""
     alive = objects_alive(sc)
     known = None
     leaked = set()
@@ -372,6 +376,10 @@ def snapshot_oracle(sc):
             tot += s["ref_count"]
             if not rec_reasons(s) and s["serial"] not in leaked:
                 before = next((x for x in (prev["streams"] if prev else []) if x["serial"] == s["serial"]), None)
+                if before is not None and rec_reasons(before) == ["is_pending_send_capacity"]:
+                    leaked.add(s["serial"])
+                    known = KF3
+                    continue
                 return {"step": st["i"], "why": "a closed record without handle, queue membership or reset expiry is still stored (leak)",
                         "stream": s["id"], "state": s["state"], "linked": s["linked"],
                         "reasons_before": rec_reasons(before) if before else None}, known
